@@ -119,9 +119,12 @@ def check(ctx):
             for col, gv in zip(shifted, got):
                 kind_, exp = var_expected(pf, col)
                 ctx.stats[f"var:{kind_}"] += 1
-                okv = (kind_ in ("min", "max", "kth") and abs(gv - float(exp)) <= 1e-12 * max(1.0, abs(float(exp)))) or \
-                      (kind_ == "between" and float(exp[0]) - 1e-12 <= gv <= float(exp[1]) + 1e-12) or \
-                      (kind_ == "any" and any(abs(gv - float(e_)) <= 1e-12 * max(1.0, abs(float(e_))) for e_ in exp))
+                # torch.quantile interpolates between neighbouring order statistics with a weight that carries
+                # float rounding, so the tolerance is relative to the spread of the sample, not to the expected value
+                tolv = 1e-12 * max(1.0, max(abs(float(z)) for z in col))
+                okv = (kind_ in ("min", "max", "kth") and abs(gv - float(exp)) <= tolv) or \
+                      (kind_ == "between" and float(exp[0]) - tolv <= gv <= float(exp[1]) + tolv) or \
+                      (kind_ == "any" and any(abs(gv - float(e_)) <= tolv for e_ in exp))
                 if not okv:
                     ctx.fail("value at risk differs from the k-th worst outcome / min / max prescribed for this level", case,
                              key=f"value_at_risk:{kind_}", detail={"impl": gv, "expected": str(exp)})
@@ -302,10 +305,11 @@ def check(ctx):
             pf = float(g.choice([F(1, 10), F(1, 2), F(1), F(1, nall), F(g.randint(1, nall), nall), F(33, 100), F(999, 1000)]))
             st, v, _ = call_impl(fnl.value_at_risk, x, pf)
             kind_, exp = var_expected(pf, allv)
+            tolv = 1e-12 * max(1.0, max(abs(float(z)) for z in allv))
             okv = st == "ok" and v.dim() == 0 and (
-                (kind_ in ("min", "max", "kth") and abs(float(v) - float(exp)) <= 1e-12 * max(1.0, abs(float(exp)))) or
-                (kind_ == "between" and float(exp[0]) - 1e-12 <= float(v) <= float(exp[1]) + 1e-12) or
-                (kind_ == "any" and any(abs(float(v) - float(e_)) <= 1e-12 * max(1.0, abs(float(e_))) for e_ in exp)))
+                (kind_ in ("min", "max", "kth") and abs(float(v) - float(exp)) <= tolv) or
+                (kind_ == "between" and float(exp[0]) - tolv <= float(v) <= float(exp[1]) + tolv) or
+                (kind_ == "any" and any(abs(float(v) - float(e_)) <= tolv for e_ in exp)))
             if not okv:
                 ctx.fail("value_at_risk(dim=None) differs from the order statistic of the whole tensor prescribed for this level", case | {"p": pf},
                          key="value_at_risk:dim-none", detail=str(v)[:100])
@@ -320,6 +324,76 @@ def check(ctx):
                 rng_small = float(max(allv)) - float(sum(allv) / nall) < 1 / (2 * lam)
                 ctx.fail("quadratic_cvar(dim=None) is not the minimum over w for the whole tensor as one sample", case | {"lam": lam},
                          key="quadratic_cvar:bracket-misses-root" if rng_small else "quadratic_cvar:dim-none", detail=str(v)[:100])
+    # ---------------- isoelastic utility / loss over the whole admissible wealth range: tiny positive (1e-12 .. 1e-6) and huge
+    # (1e6 .. 1e12) wealth next to ordinary values; the definition (log x for a = 1, x^(1-a) for a < 1) in 50 digits is the oracle
+    import mpmath as mp
+    for it in range(160 if ctx.tier == "quick" else 2400):
+        a = g.choice([1.0, 1.0, 0.5, 0.25, 0.75])
+        N, M = g.small((1, 2, 3, 4, 5, 8, 16, 33)), g.small((1, 1, 2, 3))
+        rng = g.choice(["tiny", "tiny", "huge", "mixed"])
+
+        def wealth():
+            r = rng if rng != "mixed" else g.choice(["tiny", "huge", "ordinary"])
+            if r == "ordinary":
+                return g.r.uniform(0.1, 10.0)
+            e = g.r.uniform(6.0, 12.0)
+            return 10.0 ** (-e if r == "tiny" else e)
+        form = g.choice(["module", "module_target", "functional"])
+        tval = g.choice([0.5, -2.0, 1e-9, 1024.0]) if form == "module_target" else 0.0
+        raw = [[wealth() for _ in range(N)] for _ in range(M)]                 # M columns of N paths
+        inp = [[w + tval for w in col] for col in raw]
+        pos = [[w - tval for w in col] for col in inp]                       # what "input - target" is in float64
+        if any(w <= 0.0 for col in pos for w in col):
+            continue
+        shape3 = g.chance(0.2)
+        xx = torch.tensor([[inp[m][i] for m in range(M)] for i in range(N)], dtype=torch.float64)
+        if M == 1 and g.chance(0.5):
+            xx = xx[:, 0]
+        elif shape3:
+            xx = xx.reshape(N, M, 1)
+        case = {"which": "iso", "a": a, "range": rng, "form": form, "target": tval, "shape": list(xx.shape), "cols": inp}
+        ctx.case(case, True, tag=f"iso:{rng}")
+        ctx.stats[f"iso-extreme:a={a}"] += 1
+        ctx.stats[f"iso-extreme:form={form}"] += 1
+        ctx.traces += 1
+        mp.mp.dps = 50
+
+        def util(z):
+            return mp.log(mp.mpf(z)) if a == 1.0 else mp.power(mp.mpf(z), mp.mpf(1.0 - a))
+        if form == "functional":
+            st, v, mut = call_impl(fnl.isoelastic_utility, xx, a)
+            if st != "ok" or tuple(v.shape) != tuple(xx.shape):
+                ctx.fail("isoelastic_utility raised / changed the shape on a positive sample", case, key="isoelastic_utility:wealth-range:error",
+                         detail=v if st != "ok" else list(v.shape))
+                continue
+            got_u = v.reshape(N, M).tolist()
+            bad = [(pos[m][i], got_u[i][m], float(util(pos[m][i]))) for m in range(M) for i in range(N)
+                   if not close(got_u[i][m], float(util(pos[m][i])), 1e-13, 1e-15)]
+            if bad:
+                ctx.fail("isoelastic_utility(x, a) differs from log x (a = 1) / x^(1-a) (a < 1) for tiny or huge positive x", case,
+                         key="isoelastic_utility:wealth-range:value", detail={"x": bad[0][0], "impl": bad[0][1], "definition": bad[0][2]})
+                continue
+            got = flat(-v.mean(0))
+        else:
+            if form == "module":
+                st, v, mut = call_impl(nn.IsoelasticLoss(a), xx)
+            else:
+                st, v, mut = call_impl(nn.IsoelasticLoss(a), xx, g.choice([tval, torch.tensor(tval, dtype=torch.float64)]))
+            if st != "ok":
+                ctx.fail("isoelastic loss raised on a positive sample", case, key="isoelastic:wealth-range:error", detail=v)
+                continue
+            got = flat(v)
+        if mut:
+            ctx.mutated("iso", mut, case)
+        for col, gv in zip(pos, got):
+            exp = float(-sum(util(z) for z in col) / len(col))
+            if not close(gv, exp, 1e-10):
+                ctx.fail("isoelastic loss differs from minus the mean of log x (a = 1) / x^(1-a) (a < 1) for tiny or huge positive wealth", case,
+                         key="isoelastic:wealth-range:value", detail={"impl": gv, "definition": exp, "smallest wealth": min(col)})
+                break
+        if form == "module":
+            reqs.append({"op": "iso", "a": float_bits(a), "a_is_one": a == 1.0, "cols": enc_flt(pos)})
+            metas.append(("iso", case, got))
     try:
         outs = ctx.driver(reqs)
     except DriverBroken as e:
@@ -360,4 +434,5 @@ def check(ctx):
     return ctx.finish(
         rule="samples of length N in {1..33} with ties / constants / heavy tails / scales 2^-20..2^20, shapes (N,), (N,M), (N,M,1), scalar and tensor "
              "targets, functional (dim=0) and module forms; levels p with integral and non-integral pN incl. p<=1/N, p>1-1/N; a in 2^-6..8, |a x| up to 1e4; "
-             "lam in {1,2,10,64}; every case non-trivial; distinct = sha1 of canonical case")
+             "lam in {1,2,10,64}; isoelastic a in {1,1/4,1/2,3/4} also on wealth 1e-12..1e-6 and 1e6..1e12 (module, module with target, functional); "
+             "every case non-trivial; distinct = sha1 of canonical case")
